@@ -5,11 +5,13 @@ Line-protocol driver.  `driver impl` runs the executable models of the code (`Im
 Imports no Mathlib (it is linked as a native executable).
 -/
 import GmVerif.Drv.Sym
+import GmVerif.Drv.SM2
 open GmVerif
 
 def step (spec : Bool) (line : String) : String :=
   let toks := (line.trimAscii.toString.splitOn " ").filter (· ≠ "")
-  let r := if spec then Drv.Sym.specStep toks else Drv.Sym.implStep toks
+  let r := if spec then (Drv.Sym.specStep toks <|> Drv.SM2.specStep toks)
+           else (Drv.Sym.implStep toks <|> Drv.SM2.implStep toks)
   r.getD "BADOP"
 
 partial def loop (spec : Bool) (h out : IO.FS.Stream) : IO Unit := do
